@@ -3,6 +3,7 @@
 package control
 
 import (
+	"strings"
 	"bytes"
 	"fmt"
 	"math/rand"
@@ -507,6 +508,12 @@ func TestVerifTaskPoolRandomWalk(t *testing.T) {
 		var trace []map[string]any
 		var sched []tpAction
 		dead := false
+		sharedReported := false
+		var last *vActor
+		directed := 0
+		if wi%3 == 0 {
+			directed = 1
+		}
 		for step := 0; step < 400; step++ {
 			// collect new convoys
 			for {
@@ -528,8 +535,54 @@ func TestVerifTaskPoolRandomWalk(t *testing.T) {
 			if len(live) == 0 {
 				break
 			}
-			// bias: idle convoys parked at the timer gate are released less often, so that producers interleave with the idle path
-			a := live[rng.Intn(len(live))]
+			// every queue in the table owns its channel alone (the channels are recycled through a pool)
+			chans := map[chan UdpTask]UdpFlowKey{}
+			w.pool.queues.Range(func(k, v any) bool {
+				q := v.(*UdpTaskQueue)
+				if other, dup := chans[q.ch]; dup && !sharedReported {
+					sharedReported = true
+					res.Failf(fmt.Sprintf("taskpool-walk:seed%d:%d|shared-channel", verifutil.Seed(), wi), map[string]any{"walk": wi, "seed": verifutil.Seed(), "steps": sched},
+						"walk %d after %v: the queues of flows %v and %v in the pool's table share one task channel: tasks of one flow will run on the other flow's worker", wi, sched, other, q.key)
+				}
+				chans[q.ch] = q.key
+				return true
+			})
+			var a *vActor
+			switch {
+			case directed == 1:
+				// phase 1 of a directed walk: p1 runs until all its tasks are in
+				for _, c := range live {
+					if c.name == "p1" {
+						a = c
+					}
+				}
+				if a == nil {
+					directed = 2
+				}
+			case directed == 2:
+				// phase 2: the worker of p1's flow runs until it has claimed its queue for deletion (not yet removed it)
+				for _, c := range live {
+					if strings.HasPrefix(c.name, "convoy") {
+						a = c
+					}
+				}
+				if a == nil || a.at == "convoy.claimed" || a.at == "convoy.exit" {
+					a = nil
+					directed = 0
+				}
+			}
+			if a == nil {
+				a = live[rng.Intn(len(live))]
+				// sticky choice: one goroutine often runs through many steps while the others are parked
+				if last != nil && rng.Intn(5) < 3 {
+					for _, c := range live {
+						if c == last {
+							a = c
+						}
+					}
+				}
+			}
+			last = a
 			from := a.at
 			if from == "emit.enqueue" {
 				if t, ok := a.arg.(*UdpTaskQueue); ok && t != nil {
@@ -541,11 +594,39 @@ func TestVerifTaskPoolRandomWalk(t *testing.T) {
 				a.release <- struct{}{}
 				continue
 			}
+			var createdQ *UdpTaskQueue
+			if from == "acquire.store" {
+				createdQ, _ = a.arg.(*UdpTaskQueue)
+			}
 			to := s.step(a)
 			if to == "" {
 				res.Note(fmt.Sprintf("walk %d: actor %s did not reach a gate after %s", wi, a.name, from))
 				dead = true
 				break
+			}
+			if createdQ != nil {
+				// the producer stored a new queue: its worker goroutine WILL show up at its first gate - wait for exactly that
+				// (polling would make the set of scheduled goroutines depend on machine load)
+				if v, ok := w.pool.queues.Load(createdQ.key); ok && v.(*UdpTaskQueue) == createdQ {
+					known := false
+					for _, c := range actors {
+						if c.q == createdQ {
+							known = true
+						}
+					}
+					for !known {
+						select {
+						case c := <-s.newActor:
+							s.await(c)
+							actors = append(actors, c)
+							known = c.q == createdQ
+						case <-time.After(5 * time.Second):
+							res.Note(fmt.Sprintf("walk %d: the worker of a newly stored queue did not show up", wi))
+							dead = true
+							known = true
+						}
+					}
+				}
 			}
 			if from == "emit.enqueue" {
 				// the enqueue happened in this step: this is the accept order
